@@ -98,6 +98,7 @@ static void __attribute__((noinline)) paint_stack(uint8_t v)
 }
 
 enum { OUT_RETURNED = 0, OUT_THREW, OUT_THREW_OTHER };
+static bool null_for_empty;      /* an empty input is handed over as (NULL, 0), as data() of an empty std::vector may be */
 static int run_overload(int which, const uint8_t *exact, size_t n, const std::vector<uint8_t> *vec, Binson &out, std::string &msg)
 {
     /* the receiving object has a history: deserialize must replace, not merge */
@@ -105,15 +106,24 @@ static int run_overload(int which, const uint8_t *exact, size_t n, const std::ve
     out.put("zzprior\xff", BinsonValue(std::string("left over")));
     try {
         if (which == 0) { paint_stack(0); out.deserialize(*vec); }
-        else if (which == 1) out.deserialize(exact, n);
+        else if (which == 1) out.deserialize((n == 0 && null_for_empty) ? NULL : exact, n);
         else {
             binson_state st[10];
             binson_parser p;
             memset(&p, 0, sizeof p); memset(st, 0, sizeof st);
             p.state = st; p.max_depth = 10;
-            bool iok = binson_parser_init(&p, exact, n);        /* result deliberately ignored: the overload resets and checks */
+            bool iok = binson_parser_init(&p, (n == 0 && null_for_empty) ? NULL : exact, n);        /* result deliberately ignored: the overload resets and checks */
+            if (n == 0 && null_for_empty) vw_count("overload3_after_refused_null_init", 1);
             static unsigned hist;
-            if (iok && (++hist % 3) == 0) {
+            ++hist;
+            if (iok && (hist % 3) == 1) {
+                /* the caller has already walked the whole root object and left it again (depth back at 0, cursor at the end) */
+                bool b = binson_parser_go_into_object(&p);
+                while (b && binson_parser_next(&p)) { }
+                if (b) binson_parser_leave_object(&p);
+                vw_count("overload3_after_complete_walk", 1);
+            }
+            if (iok && (hist % 3) == 0) {
                 /* the caller peeked into the document first and abandoned the walk somewhere deep: deserialize(parser*) resets */
                 bool b = binson_parser_go_into_object(&p);
                 for (int i = 0; b && i < 2 + (int)(hist % 5); i++) {
@@ -210,6 +220,45 @@ static void case_tree(vrng *r)
             if (!same) { char sig[80]; snprintf(sig, sizeof sig, "c15:serialize-after-put:overload%d", ov + 1); report(sig, "serialize() after a further put() does not give the canonical encoding of the updated object", s3.data(), s3.size()); break; }
         }
         vw_count("reserialize_after_put", 3);
+        /* put under a key that is already present replaces the value (all three overloads), then an object put into itself:
+         * the stored value is the object as it was when put() was called */
+        bool okp = true;
+        for (int ov = 0; ov < 3 && okp; ov++) {
+            vnode *oldk = NULL; uint32_t at = 0;
+            for (uint32_t i = 0; i < t->nkids; i++) if (t->kids[i]->name_len == 3 && memcmp(t->kids[i]->name, extra[ov], 3) == 0) { oldk = t->kids[i]; at = i; }
+            if (!oldk) break;
+            vnode *k;
+            if (ov == 0) { k = vt_int(4242); x.put(std::string(extra[ov]), BinsonValue((int64_t)4242)); }
+            else if (ov == 1) { uint8_t b2[2] = { 0xAA, 0x0A }; k = vt_str(K_BYTES, b2, 2); x.put(std::string(extra[ov]), b2, 2); }
+            else { k = vt_new(K_OBJ); vnode *in = vt_int(-1); vt_setname(in, (const uint8_t *)"i", 1); vt_add(k, in); Binson o2; o2.put("i", BinsonValue((int64_t)-1)); x.put(std::string(extra[ov]), o2); }
+            vt_setname(k, (const uint8_t *)extra[ov], 3);
+            k->parent = t; k->index = at; t->kids[at] = k;
+            vbuf e2; memset(&e2, 0, sizeof e2);
+            vt_encode(t, &e2);
+            std::vector<uint8_t> s3 = x.serialize();
+            okp = s3.size() == e2.n && memcmp(s3.data(), e2.p, e2.n) == 0;
+            vb_free(&e2);
+            if (!okp) { char sig[80]; snprintf(sig, sizeof sig, "c15:serialize-after-replace:overload%d", ov + 1); report(sig, "serialize() after put() under a key that was already present does not give the canonical encoding of the updated object", s3.data(), s3.size()); }
+            vw_count("put_replacing_existing_key", 1);
+        }
+        if (okp && levels(t, 0) <= 9) {
+            vbuf e2; memset(&e2, 0, sizeof e2);
+            static vbuf e0;                                       /* reused from case to case: the copied subtree only lives until the case ends */
+            vb_reset(&e0);
+            vt_encode(t, &e0);
+            vnode *copy = vt_decode(e0.p, e0.n, K_OBJ);          /* the object as it is now (the decoded tree points into e0) */
+            static const char selfkey[] = "\xfe" "self";
+            vt_setname(copy, (const uint8_t *)selfkey, 5);
+            x.put(std::string(selfkey), x);
+            vt_add(t, copy); vt_sortfields(t);
+            vt_encode(t, &e2);
+            std::vector<uint8_t> s3 = x.serialize();
+            bool same = s3.size() == e2.n && memcmp(s3.data(), e2.p, e2.n) == 0;
+            if (!same) report("c15:serialize-after-self-put", "serialize() after x.put(key, x) does not give the canonical encoding of x holding a copy of its former self", s3.data(), s3.size());
+            else { uint8_t *ex2 = vg_exact(e2.n); memcpy(ex2, e2.p, e2.n); if (!verify10(ex2, e2.n)) report("c15:serialize-not-verified", "verify rejects the output of serialize() after a self-put", e2.p, e2.n); vg_free(ex2, e2.n); }
+            vb_free(&e2);
+            vw_count("self_puts", 1);
+        }
     }
 #ifdef BINSON_PARSER_WITH_PRINT
     if (vrn(r, 8) == 0) {
@@ -266,7 +315,9 @@ static void case_bytes(vrng *r, uint64_t global)
     vw_count(V ? "accepted_by_verify" : "rejected_by_verify", 1);
     for (int which = 0; which < 3; which++) {
         Binson y; std::string msg;
+        null_for_empty = d.n == 0 && vrn(r, 2);
         int out = run_overload(which, exact, d.n, &vec, y, msg);
+        null_for_empty = false;
         char sig[100];
         char cn[40]; snprintf(cn, sizeof cn, "overload%d_%s", which + 1, out == OUT_RETURNED ? "returned" : "threw"); vw_count(cn, 1);
         if (out == OUT_THREW_OTHER) { snprintf(sig, sizeof sig, "c15:non-std-exception:overload%d", which + 1); report(sig, std::string("threw something that is not a std::exception (") + origin + ")", d.p, d.n); continue; }
